@@ -261,6 +261,14 @@ func (e *Env) heapVal(key string) (SVal, bool) {
 	st := e.St
 	if e.Old {
 		if v, ok := st.Init[key]; ok {
+			if v.K == KSlice && v.Snap == "" {
+				// the contents of the slice before the callback
+				if iv, ok := st.Init[v.Loc]; ok {
+					v.Snap = iv.T
+				} else if cur, ok := st.Heap[v.Loc]; ok && !st.Written[v.Loc] {
+					v.Snap = cur.T
+				}
+			}
 			return v, true
 		}
 		// never read or written: the current value is the initial one
@@ -294,7 +302,11 @@ func (e *Env) structVal(key string) (SVal, bool) {
 	if len(fields) == 0 {
 		return SVal{}, false
 	}
-	return SVal{K: KStruct, Loc: key}, true
+	when := "new"
+	if e.Old {
+		when = "old"
+	}
+	return SVal{K: KStruct, Loc: key, Src: when}, true
 }
 
 func (e *Env) ident(name string) (SVal, error) {
@@ -452,11 +464,13 @@ func (e *Env) eval(ex ast.Expr) (SVal, error) {
 			}
 		}
 		if base.K == KStruct && base.Loc != "" {
-			// lazily assembled struct: field by key
-			if v, ok := e.heapVal(base.Loc + "." + ex.Sel.Name); ok {
+			// lazily assembled struct: field by key, in the state (before / after) the struct was looked up in
+			c := e.sub()
+			c.Old = base.Src == "old"
+			if v, ok := c.heapVal(base.Loc + "." + ex.Sel.Name); ok {
 				return v, nil
 			}
-			if v, ok := e.structVal(base.Loc + "." + ex.Sel.Name); ok {
+			if v, ok := c.structVal(base.Loc + "." + ex.Sel.Name); ok {
 				return v, nil
 			}
 		}
@@ -542,11 +556,6 @@ func (e *Env) eval(ex ast.Expr) (SVal, error) {
 			arr := base.Snap
 			if arr == "" {
 				arr = e.X.arrTerm(e.St, base)
-			}
-			if e.Old {
-				if iv, ok := e.St.Init[base.Loc]; ok {
-					arr = iv.T
-				}
 			}
 			var et = base.GoT
 			if sl, ok := isSlice(base.GoT); ok {
@@ -1039,6 +1048,16 @@ func (e *Env) matchEvent(p ast.Expr, ev Event) (string, error) {
 	var cs []string
 	for i, a := range call.Args {
 		if id, ok := a.(*ast.Ident); ok && id.Name == "_" {
+			continue
+		}
+		if fc, ok := a.(*ast.CallExpr); ok && exprString(fc.Fun) == "withvalue" && len(fc.Args) == 1 {
+			// withvalue(c): the argument is context.WithValue(c, k, v) for some key and value
+			base, err := e.eval(fc.Args[0])
+			if err != nil {
+				return "", err
+			}
+			want := "(" + smtName(sanitize("ctx_WithValue")) + " " + e.X.termOf(e.St, base) + " "
+			cs = append(cs, boolLit(ev.Args[i].K == KU && strings.HasPrefix(ev.Args[i].T, want)))
 			continue
 		}
 		if fc, ok := a.(*ast.CallExpr); ok && exprString(fc.Fun) == "fields" {
